@@ -124,7 +124,12 @@ pub fn run(ctx: &mut Ctx) {
         let mut params: Vec<Parameter> = Vec::new();
         for _ in 0..np {
             let p = if !params.is_empty() && rng.chance(1, 4) { rng.pick(&params).clone() } else { parameter(&mut rng) };
-            expr = expr.with_parameter(p.clone(), value(&mut rng, case));
+            let v = value(&mut rng, case);
+            expr = match rng.below(4) {
+                0 => expr.with_optional_parameter(p.clone(), Some(v)),
+                1 => expr.with_optional_parameter(parameter(&mut rng), None::<Envelope>).with_parameter(p.clone(), v),
+                _ => expr.with_parameter(p.clone(), v),
+            };
             params.push(p);
         }
         let id = ARID::from_data_ref(rng.bytes(32)).unwrap();
@@ -155,6 +160,9 @@ pub fn run(ctx: &mut Ctx) {
             };
             match trap::guard(|| Expression::try_from(src.clone())) {
                 Ok(Ok(back)) => {
+                    if env_bytes(&Envelope::from(back.clone())) != env_bytes(&ee) || dcbor::CBOR::from(back.function().clone()).to_cbor_data() != dcbor::CBOR::from(f.clone()).to_cbor_data() {
+                        ctx.violation(&format!("expression/reserialise-differs/{}", label), "the parsed expression serialises differently or carries another function", replay_env(&ee));
+                    }
                     if back != expr || back.function() != &f {
                         ctx.violation(&format!("expression/roundtrip-differs/{}", label), "parsed expression differs from the original", replay_env(&ee));
                     }
@@ -201,7 +209,20 @@ pub fn run(ctx: &mut Ctx) {
         ctx.count("requests");
         let nt = note(&mut rng);
         let dt = date(&mut rng, ctx);
-        let mut req = Request::new_with_body(expr.clone(), id).with_note(nt.clone());
+        let mut req = if rng.chance(1, 2) {
+            Request::new_with_body(expr.clone(), id).with_note(nt.clone())
+        } else {
+            // the same request assembled through Request::new + with_parameter
+            let mut r = Request::new(f.clone(), id);
+            for a in ee.assertions() {
+                if let (Some(pp), Some(oo)) = (a.as_predicate(), a.as_object()) {
+                    if let Ok(par) = pp.try_leaf().and_then(Parameter::try_from) {
+                        r = r.with_parameter(par, oo);
+                    }
+                }
+            }
+            r.with_note(nt.clone())
+        };
         if let Some(d) = &dt {
             req = req.with_date(d);
         }
@@ -228,6 +249,9 @@ pub fn run(ctx: &mut Ctx) {
             };
             match trap::guard(|| Request::try_from(src.clone())) {
                 Ok(Ok(back)) => {
+                    if env_bytes(&Envelope::from(back.clone())) != env_bytes(&re) {
+                        ctx.violation(&format!("request/reserialise-differs/{}", label), "the parsed request serialises to another envelope", replay_env(&re));
+                    }
                     if back != req || back.id() != id || back.note() != nt || back.date() != dt.as_ref() {
                         ctx.violation(&format!("request/roundtrip-differs/{}", label), "parsed request differs from the original", replay_env(&re));
                     }
@@ -267,8 +291,20 @@ pub fn run(ctx: &mut Ctx) {
         let val = value(&mut rng, case);
         let resp = match variant {
             0 => Response::new_success(id),
-            1 => Response::new_success(id).with_result(val.clone()),
-            2 => Response::new_failure(id).with_error(val.clone()),
+            1 => {
+                if rng.chance(1, 2) {
+                    Response::new_success(id).with_result(val.clone())
+                } else {
+                    Response::new_success(id).with_optional_result(Some(val.clone()))
+                }
+            }
+            2 => {
+                if rng.chance(1, 2) {
+                    Response::new_failure(id).with_error(val.clone())
+                } else {
+                    Response::new_failure(id).with_optional_error(Some(val.clone())).with_optional_error(None::<Envelope>)
+                }
+            }
             3 => Response::new_failure(id),
             _ => {
                 if rng.chance(1, 2) {
@@ -296,6 +332,9 @@ pub fn run(ctx: &mut Ctx) {
             };
             match trap::guard(|| Response::try_from(src.clone())) {
                 Ok(Ok(back)) => {
+                    if env_bytes(&Envelope::from(back.clone())) != env_bytes(&pe) {
+                        ctx.violation(&format!("response/reserialise-differs/{}", label), "the parsed response serialises to another envelope", replay_env(&pe));
+                    }
                     if back != resp || back.is_ok() != (variant <= 1) || back.id() != if variant == 4 { None } else { Some(id) } {
                         ctx.violation(&format!("response/roundtrip-differs/{}", label), "parsed response differs from the original", replay_env(&pe));
                     }
